@@ -8,7 +8,14 @@
 # LEAN_PATH).  Semantic mutations must make the check FAIL, harmless rewrites must PASS.  /repo and /verif/lean are
 # not modified.
 #
-# usage: mutation_check.sh [-k <substring of mutation names>] [repo root]
+# Theorem files are discovered from the directory (no list of file names here): Props/Translated is split per Rust function
+# (Make.lean / Unmake.lean / GenMake.lean / GenUnmake.lean / GenXor.lean ...), and the check of a property builds only the theorem
+# modules it lists.  By default the check of a mutation stops at the first theorem file that fails; with KEEP_GOING=1 it goes on
+# and prints ALL failing theorem files (a file importing a failed one fails on the missing .olean), to see which modules a change
+# of one function takes down (e.g. `KEEP_GOING=1 mutation_check.sh -k unmake-halfmove-zero`: Unmake GenUnmake MakeUnmake Generated
+# fail, MakeUnmakeCommon Make GenMake still build).
+#
+# usage: [KEEP_GOING=1] mutation_check.sh [-k <substring of mutation names>] [repo root]
 #        (needs `cargo build --offline` in /verif/translator and `lake build Inkayaku.Props.Translated`)
 set -u
 FILTER=""
@@ -157,7 +164,7 @@ for m in "${MUTATIONS[@]}"; do
   if [ "$expect" = FAIL ] && cmp -s $REPO/$file $d/src/mutated.rs; then
     echo "[$name] the sed expression did not change the file (the Rust source has changed; update this script)"; bad=$((bad+1)); continue
   fi
-  result=PASS; why=""
+  result=PASS; why=""; failed=""; rebuilt=""
   if ! $RS2LEAN $REPO $d/gen --override $file=$d/src/mutated.rs > $d/rs2lean.log 2>&1; then
     result=FAIL; why="rs2lean: $(tail -1 $d/rs2lean.log)"
   else
@@ -199,7 +206,7 @@ for t in torder: print('THM', t, 'dirty' if t in tdirty else 'clean')
 EOF
 )
     while read -r kind mod state; do
-      [ $result = PASS ] || break
+      [ $result = PASS ] || { [ -n "${KEEP_GOING:-}" ] && [ -n "$failed" ]; } || break
       if [ $kind = GEN ]; then
         if [ $state = clean ]; then ln -s $REALLIB/Inkayaku/Gen/Rs/$mod.olean $REALLIB/Inkayaku/Gen/Rs/$mod.ilean $d/lib/Inkayaku/Gen/Rs/ 2>/dev/null
         elif ! (cd $d/gen && LEAN_PATH=$d/lib:$ORIG_LEAN_PATH lean -o $d/lib/Inkayaku/Gen/Rs/$mod.olean $mod.lean > $d/$mod.log 2>&1); then
@@ -208,12 +215,15 @@ EOF
       else
         if [ $state = clean ]; then ln -s $REALLIB/Inkayaku/Props/Translated/$mod.olean $d/lib/Inkayaku/Props/Translated/ 2>/dev/null
         elif ! (cd $LEANDIR && LEAN_PATH=$d/lib:$ORIG_LEAN_PATH timeout 600 lean -o $d/lib/Inkayaku/Props/Translated/$mod.olean Inkayaku/Props/Translated/$mod.lean > $d/thm-$mod.log 2>&1); then
-          result=FAIL; why="Props/Translated/$mod.lean: $(grep -m1 'error' $d/thm-$mod.log)"
+          [ -n "$failed" ] || why="Props/Translated/$mod.lean: $(grep -m1 'error' $d/thm-$mod.log)"
+          result=FAIL; failed="$failed $mod"
+        else rebuilt="$rebuilt $mod"
         fi
       fi
     done <<< "$plan"
   fi
   if [ $result = $expect ]; then ok=$((ok+1)); verdict=as-expected; else bad=$((bad+1)); verdict=UNEXPECTED; fi
+  if [ -n "${KEEP_GOING:-}" ] && [ -n "$failed" ]; then why="$why [failing theorem files:$failed; rechecked and still building:${rebuilt:- none}]"; fi
   echo "[$name] expected $expect, got $result ($verdict) $why"
 done
 echo "mutation check: $ok as expected, $bad unexpected (scratch: $WORK)"
